@@ -77,6 +77,7 @@ fn lookup(rook: bool, s: u8, occ: u64) -> u64 {
 }
 
 pub fn c08_case(rook: bool, s: u8, occ: u64) -> Vec<Divergence> {
+    set_case(|| json!({"property": "C08", "case": {"kind": "slider", "rook": rook, "square": s, "occupancy": format!("{occ:#018x}")}}).to_string());
     let dirs = if rook { &ROOK_D } else { &BISHOP_D };
     let want = cast(s, dirs, occ);
     let got = std::panic::catch_unwind(|| lookup(rook, s, occ));
@@ -96,7 +97,7 @@ pub fn c08_case(rook: bool, s: u8, occ: u64) -> Vec<Divergence> {
 
 pub fn run_c08(args: &Args) -> i32 {
     let report = Report::new("C08", args.tier, args.seed, "exploration");
-    std::panic::set_hook(Box::new(|_| {}));
+    silence_panics();
     let mut jobs = vec![];
     for rook in [true, false] {
         for s in 0..64u8 {
@@ -141,7 +142,7 @@ pub fn run_c08(args: &Args) -> i32 {
             (cases, nontrivial, offray)
         })
         .collect();
-    let _ = std::panic::take_hook();
+    restore_panics();
     let cases: u64 = results.iter().map(|r| r.0).sum();
     let nontrivial: u64 = results.iter().map(|r| r.1).sum();
     let offray: u64 = results.iter().map(|r| r.2).sum();
@@ -352,6 +353,6 @@ pub fn replay_c08(case: &serde_json::Value) -> Vec<Divergence> {
     let rook = case["rook"].as_bool().unwrap();
     let s = case["square"].as_u64().unwrap() as u8;
     let occ = u64::from_str_radix(case["occupancy"].as_str().unwrap().trim_start_matches("0x"), 16).unwrap();
-    std::panic::set_hook(Box::new(|_| {}));
+    silence_panics();
     c08_case(rook, s, occ)
 }
